@@ -607,3 +607,30 @@ func VT_C01_NestedMaskStep() {
 	vt.Assert(after.DefaultInt64 == storedCopy.DefaultInt64, "field-outside-the-mask-unchanged")
 	vt.Reach("done")
 }
+
+// A write whose reset mask names an unknown field fails (with or without an update mask) and changes nothing.
+func VT_C01_InvalidResetMask() {
+	stored := vtT("stored")
+	storedCopy := proto.Clone(stored).(*T)
+	opts := []WriteOption{WithResetPaths("bogus_field")}
+	if vt.Choose("withUpdateMask", 2) == 1 {
+		opts = append(opts, WithUpdatePaths("default_int32"))
+	}
+	var got proto.Message
+	var err error
+	var after *T
+	if vt.Choose("resource", 2) == 0 {
+		v := NewValue(WithInitialValue(stored), WithClock(vtClock{}))
+		got, err = v.Set(vtT("written"), opts...)
+		after = v.Get().(*T)
+	} else {
+		c := NewCollection(WithInitialRecord("0000000000000001", stored), WithClock(vtClock{}))
+		got, err = c.Update("0000000000000001", vtT("written"), opts...)
+		g, _ := c.Get("0000000000000001")
+		after = g.(*T)
+	}
+	vt.Assert(err != nil, "invalid-reset-mask-is-refused")
+	vt.Assert(got == nil, "failed-write-returns-no-value")
+	vt.Assert(proto.Equal(after, storedCopy), "failed-write-changes-nothing")
+	vt.Reach("done")
+}
